@@ -22,6 +22,8 @@ func c03Tree() core.Tree {
 	t := c01Tree()
 	t["regex-assembly/include/inc.ra"] = "xa\nyb\n"
 	t["regex-assembly/exclude/ex.ra"] = "yb\n"
+	t["regex-assembly/include/dup.ra"] = "alpha\nbeta\nalpha\ngamma\n"
+	t["regex-assembly/include/sfx.ra"] = "##!^ p+\n##!$ s+\none\ntwo\n"
 	t["regex-assembly/include/a.ra"] = "fromfilea\n"
 	t["regex-assembly/include/i.ra"] = "fromfilei\n"
 	t["regex-assembly/123456.ra"] = "placeholder\n"
@@ -62,6 +64,18 @@ type c03L1Out struct {
 // outcomesUnder explores all schedules with <= bound deviations and returns the distinct observations.
 func outcomesUnder(bound int, f func() string) (outs []string, firstDiff []int, execs int) {
 	seen := map[string]bool{}
+	if inproc.CLIMode {
+		// degraded mode: no control over the map order of the CLI processes; three fresh processes instead
+		for i := 0; i < 3; i++ {
+			cur := f()
+			execs++
+			if !seen[cur] {
+				seen[cur] = true
+				outs = append(outs, cur)
+			}
+		}
+		return
+	}
 	var cur string
 	execs, _ = core.ExploreSchedules(bound, 0, func() { cur = f() }, func(e *core.Exec) {
 		if !seen[cur] {
@@ -121,6 +135,7 @@ var c03Menu = []string{
 	"##!> define d1 x", "##!> define d2 {{d1}}y", "##!> define d3 {{d2}}{{d1}}", "{{d1}}", "{{d3}}{{d2}}",
 	"##!> include inc", "##!> include inc -- a b b c", "##!> include-except inc ex", "##!> include-except inc ex -- a b b c",
 	"##!> include inc -- a b xa q b c",
+	"##!> include-except dup ex", "##!> include-except sfx ex", "##!> include-except sfx ex -- e z", "##!> include sfx",
 	// lines that several directive patterns could claim (also computed by L1)
 	"##! ##!> include inc", "a ##!> include inc", "##!+ i ##!> include inc", "##!^ p ##!> include inc", "##! ##!> define d1 x", "##!> include-except inc ex ##!> include inc",
 }
@@ -156,6 +171,9 @@ func C03(r *core.Run) {
 		defer os.RemoveAll(dir)
 	}
 	maxTok := r.Pick(4, 5)
+	if r.Degraded() {
+		maxTok = 1
+	}
 	type l1In struct {
 		Dir    string
 		MaxTok int
@@ -225,6 +243,9 @@ func C03(r *core.Run) {
 		// one line: every command, 2 (quick) / 3 (thorough) deviations
 		add([]string{a}, r.Pick(2, 3), all...)
 		for _, b := range menu {
+			if r.Degraded() {
+				break
+			}
 			// two lines: every command at 1 deviation; thorough: generate and format at 2
 			add([]string{a, b}, 1, all...)
 			if r.Thorough() {
